@@ -264,10 +264,12 @@ def check(run, prog, tier):
     e0 = engine(prog, NoInline())
     spaths = e0.paths(stop, recv=INST)
     run.paths += len(spaths)
-    for cyc, announced in ((11, True), (0, True), (11, False), (0, False)):
-        # `announced`: the may-answer flag (set once the first offer went out) is state stop() may consult
-        leaf = timing_leaf(me, {"CYCLIC_OFFER_DELAY": cyc}, extra=lambda tm, announced=announced: (
-            (object(),) if tm == ("attr", me, "_task") else (announced,) if tm == ("attr", me, "_can_answer_offers") else None))
+    for cyc, announced, tdone in ((11, True, False), (0, True, False), (11, False, False), (0, False, False), (0, True, True), (11, True, True)):
+        # `announced`: the may-answer flag (set once the first offer went out) is state stop() may consult;
+        # `tdone`: the offer task has already finished on its own (non-cyclic: after the repetition phase)
+        leaf = timing_leaf(me, {"CYCLIC_OFFER_DELAY": cyc}, extra=lambda tm, announced=announced, tdone=tdone: (
+            (object(),) if tm == ("attr", me, "_task") else (announced,) if tm == ("attr", me, "_can_answer_offers")
+            else (tdone,) if (tm[0] == "call" and tm[1] == ("attr", ("attr", me, "_task"), "done") and not tm[2]) else None))
         hits = []
         for p in spaths:
             try:
@@ -283,6 +285,18 @@ def check(run, prog, tier):
         other = [e for e in offer_sends(p, so.qual) if not is_stop_offer(e, so)]
         cancels = [e for e in p.events if e.kind == "call" and e.attrname == "cancel" and e.recv == ("attr", me, "_task")]
         want = 0 if cyc else 1
+        if tdone:
+            # the task is gone already: nothing to cancel, but the instance must end up stopped all the same
+            sts = {e.attrname: e.value for e in p.events if e.kind == "store" and e.target[0] == "attr" and e.target[1] == me}
+            ok3 = sts.get("_task") == const(None) and sts.get("_can_answer_offers") == const(False)
+            run.ob("O3", f"{stop.qual}:clears-may-answer-with-running-state[task-finished,{'cyclic' if cyc else 'non-cyclic'}]", ok3 and not other, loc(stop),
+                   "stop() of an instance whose offer task has finished clears the running state and the may-answer flag" if ok3 and not other else
+                   "stop() of an instance whose offer task has already finished leaves the may-answer flag set: it keeps answering FindService "
+                   "with TTL>0 offers after its StopOffer")
+            if not cyc:
+                run.ob("O2", f"{stop.qual}:stop-offer[non-cyclic,task-finished]", len(st) == 1, loc(stop),
+                       f"stop() after the repetition phase of a non-cyclic instance sends {len(st)} StopOffer(s) (expected 1)")
+            continue
         if not announced:
             # before the first offer: a cyclic instance sends nothing; for a non-cyclic one the statement leaves it open
             okb = not other and len(cancels) == 1 and (len(st) == 0 if cyc else len(st) <= 1)
